@@ -99,7 +99,8 @@ TD16_QUICK = [('tdigest.rs', 'c16_td_insert_weighted_inner', 'complete: all fini
 TD16_MERGE = [('tdigest.rs', 'c16_td_merge_1_1', 'bounded(1 centroid + 1 backlog entry; adversarial scale function)'),
               ('tdigest.rs', 'c15_td_merge_three_grid_sorted', 'bounded(1 centroid + 2 backlog values on an integer grid; non-fusing scale function): sorted, sum kept'),
               ('tdigest.rs', 'c15_td_merge_three_concrete_sorted', 'bounded(ONE concrete merge of three entries; non-fusing scale function)')]
-TD16_THOROUGH = [('tdigest.rs', 'c16_td_merge_three_any_schedule', 'bounded(1 centroid + 2 unsorted backlog entries on an integer grid, weights 1..4; EVERY fuse schedule): conservation, sortedness, no new centroids, ranks in [0,1]')]
+TD16_THOROUGH = [('tdigest.rs', 'c16_td_merge_two_plus_one_any_schedule', 'bounded(2 sorted centroids + 1 backlog entry on an integer grid, weights 1..4; EVERY fuse schedule)'),
+                 ('tdigest.rs', 'c16_td_merge_three_any_schedule', 'bounded(1 centroid + 2 unsorted backlog entries on an integer grid, weights 1..4; EVERY fuse schedule): conservation, sortedness, no new centroids, ranks in [0,1]')]
 TD19 = [('tdigest.rs', 'c19_td_clear_is_fresh', 'bounded(2 centroids + 1 backlog entry)')]
 
 PROPS = {}
